@@ -260,9 +260,14 @@ class Run:
             with open(path, "w") as f:
                 json.dump(doc, f, indent=1, default=str)
             if status == "NOT-REPRODUCED":
-                # the failure depends on what ran before it in the same process (hidden state); reported, but not as a clean VIOLATION
-                print("HARNESS-NONDETERMINISM property=%s signature=%s replay=%s" % (self.prop, list(sig), path))
+                # The failure does not reproduce when the case is run alone: it depends on what ran before it in the same process
+                # (state leaking between calls / objects inside the library -- every check is silent on the unchanged tree for every seed,
+                # so the harness itself is not the source).  It is still a violation of the property; the replay file says so.
+                print("HISTORY-DEPENDENT property=%s signature=%s (not reproducible in isolation: state leaks between calls or objects)" % (self.prop, list(sig)))
                 nondet = True
+                print("VIOLATION property=%s replay=%s" % (self.prop, path))
+                print("   signature=%s occurrences=%d detail=%s" % (list(sig), cnt, detail[:300]))
+                rc = max(rc, 1)
             else:
                 print("VIOLATION property=%s replay=%s" % (self.prop, path))
                 print("   signature=%s occurrences=%d detail=%s" % (list(sig), cnt, detail[:300]))
